@@ -20,16 +20,19 @@ from ..ref import models
 PROPERTY = "C15"
 
 VALUES = {
-    "int": [("int", -129), ("int", 2**31 - 1)],
-    "str": [("str", b""), ("str", b"caf\xc3\xa9\x00\xff")],
+    "int": [("int", -129), ("int", 2**31 - 1), ("int", 0)],
+    "str": [("str", b""), ("str", b"caf\xc3\xa9\x00\xff"), ("str", b"\x00")],
     "null": [("null", None)],
-    "oid": [("oid", (1, 3, 6, 1, 4, 1, 8072)), ("oid", (0, 0))],
-    "ip": [("ip", bytes([192, 0, 2, 1])), ("ip", bytes([255, 255, 255, 255]))],
+    "oid": [("oid", (1, 3, 6, 1, 4, 1, 8072)), ("oid", (0, 0)), ("oid", (1, 3))],
+    "ip": [("ip", bytes([192, 0, 2, 1])), ("ip", bytes([255, 255, 255, 255])), ("ip", bytes(4))],
     "c32": [("c32", 0), ("c32", 2**32 - 1)],
-    "g32": [("g32", 2**31), ("g32", 7)],
-    "tt": [("tt", 29), ("tt", 2**32 - 1)],
-    "opaque": [("opaque", b"\x9f\x78\x04\x00\x00\x00\x00")],
-    "c64": [("c64", 2**64 - 1), ("c64", 1)],
+    "g32": [("g32", 2**31), ("g32", 7), ("g32", 0)],
+    "tt": [("tt", 29), ("tt", 2**32 - 1), ("tt", 0)],
+    "opaque": [("opaque", b"\x9f\x78\x04\x00\x00\x00\x00"), ("opaque", b""), ("opaque", b"\x00")],
+    # (zero and values whose content octets coincide with those of another
+    # kind: Counter64 0 / OID 0.0 / INTEGER 0 all have the content 00;
+    # Counter64 43 and OID 1.3 the content 2b)
+    "c64": [("c64", 2**64 - 1), ("c64", 1), ("c64", 0), ("c64", 43)],
 }
 MARKERS = ["nso", "nsi", "eomv"]
 
@@ -286,13 +289,41 @@ def run_sequence(acc):
     acc.sample({"family": "sequence of %d wrapper calls on one wrapper" % len(seq)})
 
 
+def run_value_sequence(acc, reverse):
+    """every value of every kind, one after the other in ONE process through
+    get / walk / table on fresh wrappers (conversion state that outlives a
+    wrapper - module-level caches keyed by too little - must not carry a
+    result from one value to the next); both orders, in separate processes"""
+    vals = [v for vs in VALUES.values() for v in vs]
+    if reverse:
+        vals = list(reversed(vals))
+    for value in vals:
+        for label, op in method_ops(value):
+            if label not in ("get", "walk", "table", "bulkget", "multiget"):
+                continue
+            violations, nreq = run_case(label, op, value)
+            acc.count(evaluations=1, nontrivial=1, states=1, transitions=max(nreq, 1), traces=1)
+            acc.outcome("ok" if not violations else "%s/%s" % (label, violations[0]["kind"]))
+            for v in violations[:1]:
+                v["case"] = {"value_sequence": True, "reverse": reverse}
+                acc.violation(v)
+    acc.sample({"family": "all %d values in one process, %s order" % (len(vals), "reverse" if reverse else "listed")})
+
+
 def shards(tier):
-    return [{"part": i, "of": 8, "tier": tier} for i in range(8)] + [{"sequence": True, "tier": tier}]
+    return (
+        [{"part": i, "of": 8, "tier": tier} for i in range(8)]
+        + [{"sequence": True, "tier": tier}]
+        + [{"value_sequence": True, "reverse": r, "tier": tier} for r in (False, True)]
+    )
 
 
 def run_shard(params, acc):
     if params.get("sequence"):
         run_sequence(acc)
+        return
+    if params.get("value_sequence"):
+        run_value_sequence(acc, params["reverse"])
         return
     for label, op, value in all_cases()[params["part"] :: params["of"]]:
         violations, nreq = run_case(label, op, value)
@@ -305,6 +336,17 @@ def run_shard(params, acc):
 
 
 def replay(case):
+    if case.get("value_sequence"):
+        class B:
+            def __init__(self):
+                self.v = []
+            def count(self, **k): pass
+            def outcome(self, *a, **k): pass
+            def sample(self, *a, **k): pass
+            def violation(self, v): self.v.append(v)
+        b = B()
+        run_value_sequence(b, case["reverse"])
+        return b.v
     if case.get("sequence"):
         class A:
             def __init__(self):
